@@ -4,7 +4,7 @@
    the end of the section: no axiom).  The crate's four hash functions are compared with Python's
    hashlib and with rust-bitcoin on every run. *)
 From BS Require Import Impl.Visit Ref.MetaDefs Proofs.ImplRefLeaf Proofs.ImplRefTx Proofs.Transfer Proofs.Entries
-  Proofs.SpecLemmas Proofs.RefSpec Proofs.SpecTransfer Proofs.TxSpec Proofs.ObjSpec.
+  Proofs.SpecLemmas Proofs.RefSpec Proofs.SpecTransfer Proofs.TxSpec Proofs.ObjSpec Proofs.Examples.
 Open Scope N_scope.
 
 (* the three-part txid preimage of every successfully parsed transaction concatenates to the
@@ -53,3 +53,8 @@ Section Hashing.
     exists (enc_header a), (bytes (remaining pr)). split; [exact Hb|split; [exact L|exact Hs]].
   Qed.
 End Hashing.
+
+(* non-vacuity: the segwit example transaction is parsed (with trailing bytes, at a non-zero offset) *)
+Example C10_example : InLen (ex_tx_bytes ++ ex_trailing) /\ exists pr h',
+  visit_transaction never (sl 5 (ex_tx_bytes ++ ex_trailing)) [] = (Ok pr, h') /\ bytes (remaining pr) = ex_trailing.
+Proof. split; [exact ex_tx_InLen|exact ex_tx_visit]. Qed.
